@@ -73,7 +73,40 @@ def h_assign(c, np, cla):
             "reported": repr(float(reported)), "args_unchanged": d0 == d1, "n": len(labs)}
 
 
-HANDLERS = {"assign": h_assign}
+def h_lltable(c, np, cla):
+    """The likelihood table function and the per-point function on a hand-built model."""
+    from fast_ticc.containers import arguments, model_state
+    from fast_ticc import likelihood
+    K = len(c["clusters"])
+    n, W, N = c["n"], c["W"], c["N"]
+    args = arguments.UserArguments(sparsity_weight=0.1, iteration_limit=3, label_switching_cost=1.0,
+                                   min_cluster_size=1, min_meaningful_covariance=0, num_clusters=K,
+                                   num_processors=1, window_size=W, biased_covariance=False)
+    data = np.array(c["points"], dtype=np.float64)
+    model = model_state.ModelState.empty_model(args, data)
+    for k, cl in enumerate(c["clusters"]):
+        model.clusters[k].train_inverse = np.array(cl["theta"], dtype=np.float64)
+        model.clusters[k].stacked_data_mean = np.array(cl["mu"], dtype=np.float64)
+    with np.errstate(all="ignore"):
+        table = likelihood.all_points_all_clusters_log_likelihood(model, data)
+        point = [[float(likelihood.point_log_likelihood(data[p], model.clusters[k], W, N)) for k in range(K)]
+                 for p in range(len(data))]
+    return {"table": [[float(v) for v in row] for row in np.asarray(table)], "point": point,
+            "shape": list(np.asarray(table).shape), "tableDig": dig(np.asarray(table), np)}
+
+
+def h_fullrun(c, np, cla):
+    """A complete run of a front end in this execution mode (hooks on, no fault)."""
+    from harness import runs
+    t = runs.traced_run(c["cfg"])
+    last = t["events"][-1]
+    done = last["ev"] == "return"
+    return {"completed": done, "labels": last.get("labelsPerSeries") if done else None,
+            "resultDig": t["hdr"].get("resultDig"), "error_type": None if done else last.get("type"),
+            "rounds": sum(1 for e in t["events"] if e["ev"] == "round_begin")}
+
+
+HANDLERS = {"assign": h_assign, "lltable": h_lltable, "fullrun": h_fullrun}
 
 if __name__ == "__main__":
     main()
